@@ -17,6 +17,9 @@ arbitrary moments (`oBegin`, `oRegister`, `oEnd`): a peer that dials twice, a se
 Records are numbered: `cur` is the current record while `count > 0`; every other number below
 `nextRec` names a record whose `done` is closed.
 
+The registry's record of the peer carries the identity proven by the handshake that registered it
+first (`regId`, `addPeer` keeps an existing record); the handler is invoked with that record.
+
 `wait = false` is the wrapper of the pinned tree (no look-up of the record: straight to the
 second `getPeer`).
 -/
@@ -36,9 +39,13 @@ inductive WPhase where
   | notFound                -- first getPeer said no
   | waiting (r : Nat)       -- waits for record r's done channel
   | recheck                 -- about to do the second getPeer
-  | accepted
+  | accepted (ident : Nat)  -- handler invoked with this identity (number of the handshake that proved it)
   | refused
   deriving Repr, DecidableEq
+
+def WPhase.isAccepted : WPhase → Bool
+  | .accepted _ => true
+  | _ => false
 
 structure NSt where
   finalWritten : Bool
@@ -47,11 +54,18 @@ structure NSt where
   others : Nat          -- other handshake handlers of the same peer currently running
   cur : Nat             -- number of the current record (meaningful while count > 0)
   nextRec : Nat
-  registered : Bool     -- the peer is in the registry
+  regId : Option Nat    -- the peer's record in the registry: the identity proven by handshake number i
+                        -- (0 = the own handshake, i > 0 = another handler's); `addPeer` keeps the first
   stream : WPhase
   deriving Repr, DecidableEq
 
-def ninit : NSt := ⟨false, false, .notBegun, 0, 0, 0, false, .notOpened⟩
+def ninit : NSt := ⟨false, false, .notBegun, 0, 0, 0, none, .notOpened⟩
+
+/-- `addPeer`: an existing record of the peer is kept ("peer already exists") -/
+def addPeer (r : Option Nat) (i : Nat) : Option Nat :=
+  match r with
+  | some j => some j
+  | none => some i
 
 def ownInFlight (s : NSt) : Bool :=
   s.own == .begun || s.own == .verified || s.own == .registered
@@ -62,7 +76,7 @@ def count (s : NSt) : Nat := s.others + (if ownInFlight s then 1 else 0)
 def closed (s : NSt) (r : Nat) : Bool := !(0 < count s && s.cur == r)
 
 inductive NStep where
-  | rBegin | oBegin | oRegister | oEnd
+  | rBegin | oBegin | oRegister (i : Nat) | oEnd
   | iWriteFinal | iReturn | iOpenStream
   | rReadVerify | rRegister | rDone
   | w1 | w2 | w3 | w4
@@ -76,7 +90,7 @@ def beginRec (s : NSt) : NSt :=
 def nstep (wait : Bool) (s : NSt) : NStep → NSt
   | .rBegin => if s.own == .notBegun then { (beginRec s) with own := .begun } else s
   | .oBegin => { (beginRec s) with others := s.others + 1 }
-  | .oRegister => if 0 < s.others then { s with registered := true } else s
+  | .oRegister i => if 0 < s.others then { s with regId := addPeer s.regId (i + 1) } else s
   | .oEnd => if 0 < s.others then { s with others := s.others - 1 } else s
   -- the initiator writes its final message only after it has read the responder's answer,
   -- which the responder's handler wrote: the handler has begun
@@ -84,11 +98,13 @@ def nstep (wait : Bool) (s : NSt) : NStep → NSt
   | .iReturn => if s.finalWritten then { s with iConnected := true } else s
   | .iOpenStream => if s.iConnected && s.stream == .notOpened then { s with stream := .pending } else s
   | .rReadVerify => if s.finalWritten && s.own == .begun then { s with own := .verified } else s
-  | .rRegister => if s.own == .verified then { s with own := .registered, registered := true } else s
+  | .rRegister => if s.own == .verified then { s with own := .registered, regId := addPeer s.regId 0 } else s
   | .rDone => if s.own == .registered then { s with own := .ended } else s
   | .w1 =>
     if s.stream == .pending then
-      if s.registered then { s with stream := .accepted } else { s with stream := .notFound }
+      match s.regId with
+      | some i => { s with stream := .accepted i }
+      | none => { s with stream := .notFound }
     else s
   | .w2 =>
     if s.stream == .notFound then
@@ -100,7 +116,9 @@ def nstep (wait : Bool) (s : NSt) : NStep → NSt
     | _ => s
   | .w4 =>
     if s.stream == .recheck then
-      if s.registered then { s with stream := .accepted } else { s with stream := .refused }
+      match s.regId with
+      | some i => { s with stream := .accepted i }
+      | none => { s with stream := .refused }
     else s
 
 def nrun (wait : Bool) : NSt → List NStep → NSt
